@@ -140,7 +140,7 @@ def main():
             f.write(json.dumps(c) + "\n")
     ofile = os.path.join(work, "out.ndjson")
     pr = subprocess.run(["timeout", "1200", binpath, pfile, ofile], capture_output=True, text=True)
-    outs = [json.loads(l) for l in open(ofile)] if os.path.exists(ofile) else []
+    outs = vlib.read_ndjson(ofile)
     if pr.returncode != 0 or len(outs) != 2 * len(cases):
         rep.violation("crash", {"stderr": pr.stderr[-300:]}, "harness died (exit %s) after %d results: %s" % (pr.returncode, len(outs), pr.stderr[-300:]))
     kinds = {}
